@@ -471,6 +471,35 @@ func runC20(r *ev.Run) {
 				r.Count("i8-components-in-range", 1)
 			}
 		}
+		// extreme but finite trained ranges (the bound absMax/254 is relative to the range, whatever its magnitude)
+		if i%8 == 0 {
+			big := []float64{1e-30, 1e-20, 1e20, 1e30, 1e36, 1e37, 1e38, 3e38}[rng.IntN(8)]
+			xq, _ := comet.NewQuantizer(comet.Int8Precision)
+			tv := make([]float32, dim)
+			for j := range tv {
+				tv[j] = float32((rng.Float64()*2 - 1) * big)
+			}
+			tv[rng.IntN(dim)] = float32(big)
+			xq.Train([][]float32{tv})
+			am := 0.0
+			for _, x := range tv {
+				am = math.Max(am, math.Abs(float64(x)))
+			}
+			if st, err := xq.Quantize(tv); err != nil {
+				fail("quant.i8.error", fmt.Sprintf("trained range %g: %v", am, err))
+			} else if back, err := xq.Dequantize(st); err != nil || len(back) != dim {
+				fail("quant.i8.length", fmt.Sprintf("trained range %g: Dequantize failed or changed the length", am))
+			} else {
+				for j := range tv {
+					e := math.Abs(float64(back[j]) - float64(tv[j]))
+					if !(e <= am/254+8*eps32*am) { // also catches NaN / Inf
+						fail("quant.i8.precision", fmt.Sprintf("trained range %g: component %d: %g -> %g (err %g > absMax/254=%g)", am, j, tv[j], back[j], e, am/254))
+						break
+					}
+				}
+				r.Count("i8-extreme-range-vectors", 1)
+			}
+		}
 		// the persisted-range path: a fresh quantiser given the same absMax through SetAbsMax (documented
 		// "for deserialization"), and a trained one re-ranged through SetAbsMax, must behave like a
 		// quantiser trained to that range.
